@@ -14,6 +14,9 @@ pub struct E1Config {
     /// node_id per position
     pub node_ids: Vec<String>,
     pub ipv6: bool,
+    /// 0: plain (per `ipv6`), 1: IPv4-mapped IPv6 (::ffff:a.b.c.d), 2: IPv6 with all groups set, 3: IPv4 edge values
+    #[serde(default)]
+    pub addr_kind: u8,
     /// tombstone grace per position (clock skew modelled as scaled durations)
     pub grace_ms: Vec<u64>,
     pub dead_grace_ms: Vec<u64>,
